@@ -9,6 +9,7 @@
   (accept <header>)                -> (error badQ) | (some i) | none      parse, then encoder
   (content <header>)               -> (error badQ) | (some i) | none      parse, [0], then decoder
   (csv ((<cell> ...) ...))         -> (<text> (<row> ...))  csvDumps and csvLoads of it
+  (jsonfloat <n> <scale>)          -> (<n'> <scale'>)       what the JSON encoders write for n/10^scale
   <enc> ::= (<kind> ((<key> <value>) ...))
 -/
 import ForML.Model.Sexp
@@ -47,7 +48,7 @@ def stepC19 : Sexp → Sexp
   | .list [.atom "ranges", h] =>
     match str? h with
     | some h => match ranges h with
-      | .ok rs => .list [.atom "ok", .list (rs.map fun r => .list [ofStr r.kind, Sexp.ofNat r.q])]
+      | .ok rs => .list [.atom "ok", .list (rs.map fun r => .list [ofStr r.kind, Sexp.ofInt r.q])]
       | .error .badQ => badQ
     | none => .atom "bad-op"
   | .list [.atom "glob", p, n] =>
@@ -85,6 +86,10 @@ def stepC19 : Sexp → Sexp
       let text := csvDumps rows
       .list [ofStr text, .list ((csvLoads text).map fun r => .list (r.map ofStr))]
     | none => .atom "bad-op"
+  | .list [.atom "jsonfloat", n, k] =>
+    match n.nat?, k.nat? with
+    | some n, some k => let r := (Dec.mk n k).jsonRender; .list [Sexp.ofNat r.n, Sexp.ofNat r.scale]
+    | _, _ => .atom "bad-op"
   | _ => .atom "bad-op"
 
 def main : IO Unit := driverLoop stepC19
